@@ -38,11 +38,18 @@ def c06(tier):
 def c17(tier):
     def own(d):
         return d["ev"] == "is_clean"
+    from . import props_marker as PM
     return PE.generic("C17", tier, profiles=["marker", "restart", "latep"], own=own, n_quick=540, n_thorough=4000,
+                      extra_stage=PM.stage,
                       extra_assumptions=["reopen happens at delays 0, 1 and 20 ms after the last call, in the same and in a new process",
                                          "profile latep holds the marker persister thread of an instance at the cfg gate tc_before_persist "
                                          "across a clean shutdown and a successor instance (the schedule behind repaired defect "
-                                         "'late persister of a dropped instance')"])
+                                         "'late persister of a dropped instance')",
+                                         "MarkerStore stage: one sequential client, successive instances in one process, clean shutdowns only; "
+                                         "the replay controls WHEN a parked persister writes (gates tc_before_persist / tc_after_persist), not "
+                                         "when it wakes: only prompt-snapshot schedules are replayed, torn snapshots are covered by TLC alone",
+                                         "the marker file is decoded by the harness with a struct of the same rkyv layout as the engine's "
+                                         "private CleanMarkerRecord"])
 
 
 def _c12_corpus(n, seed, cfgs):
